@@ -88,7 +88,7 @@ def hostile_tokens(rng, g, n):
 
 def gen_case(rng, cid, pool_texts):
     kind = rng.choice(["bytes", "mutdesc", "mutdesc", "longnames", "longnames", "bigrule", "codes", "codes", "flags",
-                       "debug", "longdesc", "manyalts"])
+                       "debug", "longdesc", "manyalts", "bigcost"])
     L = ["C %d" % cid, "new 0"]
     feats = set()
     amode = rng.choice([0, 1, 2, 2, 2, 3])
@@ -150,6 +150,17 @@ def gen_case(rng, cid, pool_texts):
         L += emit_tokens([1, 10 + rng.randrange(n)] if rng.random() < 0.8 else [1, 1, 10])
         L += ["parse 0 %d h" % (amode if amode != 3 else 2)]
         feats.add("many_alternatives_%d" % n)
+    elif kind == "bigcost":
+        # node costs are arbitrary non-negative ints: totals that do not fit an int, under the cost flag
+        big = lambda: rng.choice([INT_MAX, INT_MAX // 2, INT_MAX // 2 + 1, 1 << 30, 1214748348, INT_MAX - 1, 7])
+        g = Grammar([("a", 97), ("'+'", 43)],
+                    [Rule("E", ["E", "'+'", "E"], "add", big(), [0, 2]), Rule("E", ["a"], "leaf", big(), [0]),
+                     Rule("E", ["a"], "leaf2", big(), [])])
+        L += emit_config(0, la=rng.choice([0, 1, 2]), one=rng.randrange(2), cost=1, rec=rng.randrange(2))
+        L += emit_define(g, 0, 1)
+        L += emit_tokens([97] + [43, 97] * rng.randrange(0, 5))
+        L += ["parse 0 %d h" % (amode if amode != 3 else 2)]
+        feats.add("huge_costs")
     elif kind == "codes":
         k = rng.randrange(2, 12)
         lay = code_layout(rng)
